@@ -77,6 +77,12 @@ func checkTerm(c *Ctx, rule, key, pos, what string, got *flow.Term, wants ...*fl
 		}
 	}
 	want := what + " = " + strings.Join(ws, " or ")
+	// a value that goes through an in-module helper the rule does not know is outside the supported
+	// subset: Undecided, not a verdict
+	if h := unknownHelper(got, ws); h != "" {
+		c.Run.Unknown(rule, key, pos, want, "goes through helper "+h+": "+short(got.String()))
+		return false
+	}
 	if got.IsUnknown() {
 		c.Run.Unknown(rule, key, pos, want, short(got.String()))
 		return false
@@ -120,14 +126,27 @@ func compareGuard(c *Ctx, rule, key, pos, what string, got, want *flow.Formula) 
 		keep[a] = true
 	}
 	got = projectPlumbing(got, keep)
+	wantLeaves := map[string]bool{}
+	for _, t := range want.Atoms() {
+		if t != nil {
+			for l := range t.Leaves() {
+				wantLeaves[l] = true
+			}
+		}
+	}
 	var extraPure, extraOpaque []string
 	for a, t := range got.Atoms() {
 		if keep[a] || !got.DependsOn(a) {
 			continue
 		}
-		if t != nil && t.Pure() {
+		if flow.Linked(t, want.Atoms()) {
+			continue // compared with a constant like one of the required atoms: decided exactly by Compare
+		}
+		if t != nil && t.Pure() && !sharesLeaf(t, wantLeaves) {
 			extraPure = append(extraPure, a)
 		} else {
+			// opaque, or an input condition on a value the required guard also tests (the two atoms are
+			// not independent, a truth table over them proves nothing)
 			extraOpaque = append(extraOpaque, a)
 		}
 	}
@@ -248,11 +267,88 @@ func errSwallowRule(c *Ctx, rule string, fn *ssa.Function) {
 	seen := map[string]bool{}
 	for _, s := range bad {
 		et := e.Term(s.Branch.Err)
-		k := fnKey(fn) + "/swallow:" + et.String()
+		k := fnKey(fn) + "/swallow:" + strings.ReplaceAll(et.String(), " ", "")
 		if seen[k] {
 			continue
 		}
 		seen[k] = true
 		c.Run.Bad(rule, k, ipos(c, s.Ret), "a failure of "+et.String()+" is reported to the caller", "the `!= nil` branch reaches `return nil` at "+ipos(c, s.Ret)+": the caller sees success although the data was not transformed")
+	}
+}
+
+func sharesLeaf(t *flow.Term, leaves map[string]bool) bool {
+	for l := range t.Leaves() {
+		if leaves[l] {
+			return true
+		}
+		for w := range leaves {
+			if strings.HasPrefix(l, w+".") || strings.HasPrefix(w, l+".") {
+				return true
+			}
+		}
+	}
+	return false
+}
+
+// unknownHelper returns the name of a function called inside got that none of the expected terms mentions
+// and that is not one of the primitives the rules know.
+func unknownHelper(got *flow.Term, wants []string) string {
+	name := ""
+	got.Has(func(t *flow.Term) bool {
+		if t.Op != "call" || name != "" {
+			return false
+		}
+		n := t.Val
+		for _, w := range wants {
+			if strings.Contains(w, n+"(") {
+				return false
+			}
+		}
+		if knownPrimitive[n] {
+			return false // a primitive the rules know, used in the wrong place: that is a verdict
+		}
+		name = n
+		return true
+	})
+	return name
+}
+
+// knownPrimitive lists the in-module functions the flow rules reason about. A value that flows through one of
+// them where another was required is refuted; a value that flows through any other in-module function is an
+// unrecognised helper (Undecided).
+var knownPrimitive = map[string]bool{}
+
+func init() {
+	for _, n := range []string{
+		"lorawan/backend/joinserver.getJSIntKey", "lorawan/backend/joinserver.getJSEncKey",
+		"lorawan/backend/joinserver.getFNwkSIntKey", "lorawan/backend/joinserver.getAppSKey",
+		"lorawan/backend/joinserver.getSNwkSIntKey", "lorawan/backend/joinserver.getNwkSEncKey",
+		"lorawan/backend/joinserver.getSKey", "lorawan/backend/joinserver.getJSKey",
+		"lorawan/backend/joinserver.handleJoinRequest", "lorawan/backend/joinserver.handleRejoinRequest",
+		"lorawan/backend/joinserver.handleJoinRequestWrapper", "lorawan/backend/joinserver.handleRejoinRequestWrapper",
+		"lorawan/backend.NewKeyEnvelope",
+		"(lorawan.PHYPayload).isUplink", "(lorawan.PHYPayload).MarshalBinary", "(lorawan.PHYPayload).ValidateUplinkJoinMIC",
+		"(*lorawan.PHYPayload).calculateUplinkDataMIC", "(*lorawan.PHYPayload).calculateDownlinkDataMIC",
+		"(*lorawan.PHYPayload).EncryptFOpts", "(*lorawan.PHYPayload).EncryptFRMPayload",
+		"(*lorawan.PHYPayload).DecodeFOptsToMACCommands", "(*lorawan.PHYPayload).SetDownlinkJoinMIC",
+		"(*lorawan.PHYPayload).EncryptJoinAcceptPayload",
+		"lorawan.EncryptFOpts", "lorawan.EncryptFRMPayload", "lorawan.decodeDataPayloadToMACCommands",
+		"(lorawan.MACPayload).marshalPayload",
+		"(lorawan.EUI64).MarshalBinary", "(lorawan.DevNonce).MarshalBinary", "(lorawan.MHDR).MarshalBinary",
+		"(lorawan.NetID).MarshalBinary", "(lorawan.JoinNonce).MarshalBinary",
+		"(*lorawan.DevAddr).SetAddrPrefix", "(lorawan.DevAddr).NwkID", "(lorawan.DevAddr).NetIDType",
+		"(lorawan.NetID).ID", "(lorawan.NetID).Type",
+		"(*lorawan.CFList).UnmarshalBinary", "(*lorawan.NetID).UnmarshalText", "(*lorawan.EUI64).UnmarshalText",
+		"(lorawan.EUI64).String", "(lorawan.DevAddr).String", "(lorawan.NetID).String", "(lorawan.AES128Key).String",
+		"(lorawan/backend.HEXBytes).String",
+		// builtins and error constructors
+		"len", "cap", "append", "copy", "dyn",
+		"errors.New", "fmt.Errorf", "pkgerrors.New", "pkgerrors.Errorf", "pkgerrors.Wrap", "pkgerrors.Wrapf", "pkgerrors.Cause",
+		"bytes.Equal", "encoding/hex.EncodeToString", "encoding/hex.DecodeString", "strings.TrimPrefix",
+		"crypto/aes.NewCipher", "keywrap.Wrap", "keywrap.Unwrap", "time.Parse", "(time.Time).Format",
+		"strconv.ParseFloat", "strconv.FormatFloat", "encoding/json.Marshal", "math.Round",
+		"invoke error.Error", "invoke lorawan.Payload.MarshalBinary",
+	} {
+		knownPrimitive[n] = true
 	}
 }
